@@ -300,7 +300,7 @@ pub fn test(r: &RawData, ev: &mut Ev, opts: &ModelOpts) -> Result<(), Violation>
 pub fn run(ctx: &Ctx) -> Result<Ev, String> {
     let opts = ModelOpts { devices: vec![] };
     let shards = 32usize;
-    let per = (if ctx.thorough { 600_000 } else { 30_000 } / shards) as u32;
+    let per = (if ctx.thorough { 1_500_000 } else { 120_000 } / shards) as u32;
     let seed = ctx.seed;
     let total = par::run_shards("C06", shards, |s| par::prop_shard("C06", seed, s, per, &raw_data(), |c, ev| test(c, ev, &opts)));
     if total.discarded * 20 > total.evaluations {
